@@ -21,7 +21,7 @@ RULE = ("Hypothesis RuleBasedStateMachine over one temporary results file: rule 
         "every save: get_outputs_from_file has exactly the model's names; data and actions equal the saved arrays (shape, values, NaN "
         "positions; compared as float64); metadata equals json.loads(json.dumps(original metadata, default=json_serializer)); "
         "Output.from_file agrees; entries saved earlier are the same JSON objects as before; a repeated name changes nothing. "
-        "Command level: solve / greedy / best_states run through the real CLI parser on small configurations with the evaluation / "
+        "Command level: solve / greedy / ugreedy / best_states run through the real CLI parser on small configurations with the evaluation / "
         "search function wrapped by a recording spy: what is read back equals what the spy saw returned. Non-trivial: >= 3 saves with "
         "a repeated name and a matrix containing NaN; distinct = hash of the save history.")
 LEVEL_TEXT = ("Model-based stateful search over save histories with a dictionary model and a byte-level 'earlier entries unchanged' "
@@ -281,7 +281,8 @@ def _check_command(case: dict) -> Result:
     res = Result()
     d = Path(tempfile.mkdtemp(prefix="vp-c19c-"))
     seen: dict = {}
-    targets = {"solve": (solve_mod, "evaluate"), "greedy": (greedy_mod, "get_greedy_rewards"), "best_states": (bs_mod, "get_best_exploitability")}
+    targets = {"solve": (solve_mod, "evaluate"), "greedy": (greedy_mod, "get_greedy_rewards"), "ugreedy": (greedy_mod, "get_greedy_rewards"),
+               "best_states": (bs_mod, "get_best_exploitability")}
     mod, attr = targets[case["command"]]
     orig = getattr(mod, attr)
 
@@ -298,8 +299,8 @@ def _check_command(case: dict) -> Result:
                     "--gap-function", case["gap"], "--game-class", case["computer"], "--parallel-environments", str(case["procs"])]
             if case["command"] == "solve":
                 argv += ["solve", "--solver", case["solver"], "--solve-repetitions", str(case["reps"])]
-            elif case["command"] == "greedy":
-                argv += ["greedy", "--sampling-repetitions", str(case["reps"])]
+            elif case["command"] in ("greedy", "ugreedy"):
+                argv += [case["command"], "--sampling-repetitions", str(case["reps"])]
             else:
                 argv += ["best_states", "--sampling-repetitions", str(case["reps"]), "--eval-repetitions", str(case["eval_reps"])]
             n_before = len(seen.get("calls", []))
@@ -314,7 +315,7 @@ def _check_command(case: dict) -> Result:
             if first_time:
                 if case["command"] == "solve":
                     expl, acts = calls[0]
-                elif case["command"] == "greedy":
+                elif case["command"] in ("greedy", "ugreedy"):
                     expl, chosen = calls[0]
                     acts = np.reshape(np.array(chosen), (len(chosen), 1))
                 else:
@@ -351,14 +352,14 @@ def _check_command(case: dict) -> Result:
 
 @st.composite
 def command_cases(draw):
-    cmd = draw(st.sampled_from(["solve", "greedy", "best_states"]))
+    cmd = draw(st.sampled_from(["solve", "greedy", "best_states", "best_states", "ugreedy"]))
     n = 3
     names = draw(st.lists(st.sampled_from(["r1", "r2", "r3"]), min_size=2, max_size=3))
     return {"kind": "command", "command": cmd, "n": n, "limit": draw(st.integers(1, 2)), "seed": draw(st.integers(0, 10**6)),
             "generator": draw(st.sampled_from(["factory", "noisy_factory", "xos", "graph_random"])),
             "gap": draw(st.sampled_from(["exploitability", "l1_norm"])), "computer": draw(st.sampled_from(["superadditive", "superadditive_cached"])),
             "procs": draw(st.sampled_from([1, 2])), "solver": draw(st.sampled_from(["greedy", "largest", "random"])),
-            "reps": draw(st.integers(1, 3)), "eval_reps": draw(st.integers(1, 2)), "names": names}
+            "reps": draw(st.sampled_from([2, 3, 1])), "eval_reps": draw(st.sampled_from([2, 1])), "names": names}
 
 
 def plan(tier: str) -> list[dict]:
